@@ -107,12 +107,15 @@ func (x *c04Gen) catcher() string {
 	case 4:
 		return "error(_, _)"
 	}
-	return []string{"error(type_error(_, _), _)", "error(instantiation_error, _)", "error(existence_error(_, _), _)", "error(resource_error(_), _)"}[g.Choose(4)]
+	return []string{"error(type_error(_, _), _)", "error(instantiation_error, _)", "error(existence_error(_, _), _)", "error(resource_error(_), _)", "error(evaluation_error(_), _)", "error(b1, ctx1)", "error(_, ctx1)"}[g.Choose(7)]
 }
 
 func (x *c04Gen) ball() string {
 	g := x.g
-	switch g.Weighted(5, 2, 2, 1) {
+	switch g.Weighted(5, 2, 2, 1, 1) {
+	case 4:
+		// an error term whose context is left open: the ball is a copy of it, the context stays a variable
+		return []string{"error(b1, _)", "error(b2, _)"}[g.Choose(2)]
 	case 0:
 		return []string{"b1", "b2", "b3"}[g.Choose(3)]
 	case 1:
@@ -146,7 +149,7 @@ func (x *c04Gen) leaf() *c04Goal {
 	case 4:
 		return &c04Goal{Op: "throw", T: x.ball()}
 	case 5:
-		return &c04Goal{Op: "berr", Kind: []string{"type", "inst", "arg", "exist"}[g.Choose(4)]}
+		return &c04Goal{Op: "berr", Kind: []string{"type", "inst", "arg", "exist", "eval", "evalcmp"}[g.Choose(6)]}
 	case 6:
 		return &c04Goal{Op: "out"}
 	case 7:
@@ -196,6 +199,9 @@ func (x *c04Gen) goal(depth int) *c04Goal {
 	case 5:
 		return &c04Goal{Op: "call", Args: []*c04Goal{x.scoped(depth - 1)}}
 	case 6:
+		if g.Choose(3) == 0 {
+			return &c04Goal{Op: "nth", N: 1 + g.Choose(3), Args: []*c04Goal{x.scoped(depth - 1)}}
+		}
 		return &c04Goal{Op: "once", Args: []*c04Goal{x.scoped(depth - 1)}}
 	case 7:
 		if x.inBody {
@@ -331,6 +337,8 @@ func c04Text(g *c04Goal) string {
 		return "call(" + c04Text(g.Args[0]) + ")"
 	case "once":
 		return "once(" + c04Text(g.Args[0]) + ")"
+	case "nth":
+		return fmt.Sprintf("call_nth(%s, %d)", c04Text(g.Args[0]), g.N)
 	case "findall":
 		return fmt.Sprintf("findall(x, %s, V%d)", c04Text(g.Args[0]), g.V)
 	case "catch":
@@ -346,6 +354,10 @@ func c04Text(g *c04Goal) string {
 		return "throw(" + g.T + ")"
 	case "berr":
 		switch g.Kind {
+		case "eval":
+			return "_ is 1 / 0"
+		case "evalcmp":
+			return "1 < 1 / 0"
 		case "type":
 			return "_ is foo + 1"
 		case "inst":
